@@ -581,7 +581,7 @@ fn c06_pairs_enum(tier: Tier, shard: u64, nshards: u64, f: &mut dyn FnMut(&[u64]
 fn c06_plan(tier: Tier) -> Vec<Job> {
     let q = tier == Tier::Quick;
     vec![
-        Job { sub: "hist", kind: JobKind::Pbt { cases: if q { 100_000 } else { 3_000_000 }, max_len: 500 }, smallbuf: false },
+        Job { sub: "hist", kind: JobKind::Pbt { cases: if q { 400_000 } else { 8_000_000 }, max_len: 500 }, smallbuf: false },
         Job { sub: "pairs", kind: JobKind::Enum { f: c06_pairs_enum, bound: "two responses: every size k1 of the first short write x every size k2 of the second (quick: every third) x one fault {none, EINTR, EAGAIN, EPIPE, zero} before write #0..3" }, smallbuf: false },
     ]
 }
@@ -920,7 +920,7 @@ pub fn c11_conn_subs() -> Vec<(&'static str, SubFn)> {
 pub fn c11_conn_jobs(tier: Tier) -> Vec<Job> {
     let q = tier == Tier::Quick;
     vec![
-        Job { sub: "ab", kind: JobKind::Pbt { cases: if q { 60_000 } else { 1_500_000 }, max_len: 1400 }, smallbuf: false },
+        Job { sub: "ab", kind: JobKind::Pbt { cases: if q { 150_000 } else { 3_000_000 }, max_len: 1400 }, smallbuf: false },
         Job { sub: "ab", kind: JobKind::Pbt { cases: if q { 30_000 } else { 500_000 }, max_len: 900 }, smallbuf: true },
         Job { sub: "e2_32", kind: JobKind::Enum { f: c11_e2_32_enum, bound: "B=32: every error-ending stream of the piece family (cut at the decidable point, or whole) x 7 continuations x all cut pairs (quick: second cut inside the continuation)" }, smallbuf: true },
     ]
@@ -1193,7 +1193,7 @@ fn c12_socket(input: &Input, obs: &mut Obs) -> Result<(), Fail> {
                 }
             }
             let chunk = &stream[pos..pos + n];
-            let mut drain = |conn: &mut HttpConnection<UnixStream>, kept: &mut Vec<Request>| -> Result<(), Fail> {
+            let drain = |conn: &mut HttpConnection<UnixStream>, kept: &mut Vec<Request>| -> Result<(), Fail> {
                 loop {
                     match conn.try_read() {
                         Ok(()) => {}
@@ -1286,7 +1286,7 @@ fn c12_socket(input: &Input, obs: &mut Obs) -> Result<(), Fail> {
 fn c12_plan(tier: Tier) -> Vec<Job> {
     let q = tier == Tier::Quick;
     vec![
-        Job { sub: "ss", kind: JobKind::Pbt { cases: if q { 30_000 } else { 600_000 }, max_len: 900 }, smallbuf: false },
+        Job { sub: "ss", kind: JobKind::Pbt { cases: if q { 80_000 } else { 1_500_000 }, max_len: 900 }, smallbuf: false },
         Job { sub: "ss", kind: JobKind::Pbt { cases: if q { 10_000 } else { 200_000 }, max_len: 700 }, smallbuf: true },
         Job { sub: "socket", kind: JobKind::Pbt { cases: if q { 4_000 } else { 60_000 }, max_len: 500 }, smallbuf: false },
     ]
